@@ -36,8 +36,8 @@ func (c08) Rule() string {
 		"Case kinds (index space = concatenation of the kinds table, fixed count per tier): " +
 		"l1.exhaustive: one case per (n, edge mask) for n<=4 (thorough n<=5, each mask split into 4 blocks of id assignments), inside it every fetch-id assignment x every raw order (n=5: identity, reverse and 2 seeded raw orders); " +
 		"l1.random/l1.nested/l1.entity/l1.dup: seeded random plans up to 14 fetches (random/layered/chains/diamonds/forest/components shapes; nested = fetches hanging under response paths of other fetches, some without declared dependencies; entity = entity/batch-entity fetches on few subgraphs so that same-wave fetches merge into multi fetches; dup = exact duplicate fetches). " +
-		"Every layer-1 plan is post-processed under 10 option sets (waves|scheduler|serial x +-multi-fetch x +-de-duplication) and the tree is checked: every planned fetch exactly once (as itself, as member of a merged request, or via the first fetch of its duplicate class) and every dependency completes before its dependant starts. " +
-		"l2.*: the same plan kinds (plus errors = fetches failing with GraphQL errors or at transport level) executed by the real Resolver/Loader with gated fake subgraphs: all completion orders for n<=4, per parallel group all permutations up to 4 members (seeded beyond), seeded flat priorities, burst (whole wave released at once) and ungated runs; oracles: request content equals the values the dependencies delivered, arrival after merged/release of every dependency on one logical clock, each planned request at most/exactly once, response identical across completion orders (data bytes, errors as multiset). " +
+		"Every layer-1 plan is post-processed under 10 option sets (waves|scheduler|serial x +-multi-fetch x +-de-duplication; every 4th random plan additionally as the response tree of a subscription plan whose root carries the trigger; a quarter of the entity plans with eagerly printed inputs) and the tree is checked: every planned fetch exactly once (as itself, as member of a merged request, or via the first fetch of its duplicate class) and every dependency completes before its dependant starts. " +
+		"l2.*: the same plan kinds (plus errors = fetches failing with GraphQL errors or at transport level) executed by the real Resolver/Loader (alternating ResolveGraphQLResponse / ArenaResolveGraphQLResponse) with gated fake subgraphs under 3-5 option sets: all completion orders for n<=4, per parallel group all permutations up to 4 members (seeded beyond), seeded flat priorities, burst (whole wave released at once) and ungated runs; oracles: request content equals the values the dependencies delivered, arrival after merged/release of every dependency on one logical clock, each planned request at most/exactly once, response identical across completion orders (data bytes, errors as multiset). " +
 		"A layer-1 plan is non-trivial when it has >=1 dependency edge; a layer-2 case when >=1 execution really had >=2 requests pending at once and the plan has >=1 edge. Distinct = canonical labelled plan."
 }
 
@@ -493,6 +493,7 @@ func l2Plan(c *fw.Ctx, res *fw.Result, acc *l2acc, idx int, spec *planSpec, rng 
 			}
 			if oc.stall != "" {
 				res.Count("l2_stalls", 1)
+				res.Count("l2_"+strings.SplitN(oc.stall, ":", 2)[0], 1)
 				res.Inconclusive = oc.stall + "; plan=" + spec.String() + " opt=" + o.Name + " schedule=" + sch.desc
 			}
 			st := env.checkExecution(res, o, sch, &oc, witness)
